@@ -768,3 +768,21 @@ Proof.
   - eexists. vm_compute. reflexivity.
   - eexists. vm_compute. reflexivity.
 Qed.
+
+(* ---------------- outside the invariant: client-made blocks with uninitialised sub-blocks ---------------- *)
+
+(* a 16x16x16 block whose first sub-block alternates labels 1,2 and whose seven other sub-blocks are
+   uninitialised (NumSBLabels = 0): their 3584 voxels read 0 without any table slot, so a table
+   edit of label 0 (ReplaceLabel(0, 7)) leaves them 0 and reports 0 voxels.  [block_wf] excludes
+   such blocks (every sub-block has at least one slot). *)
+Definition c10_sparse_block : block :=
+  Eval vm_compute in
+    mkBlock 2 2 2 [1; 2] [2; 0; 0; 0; 0; 0; 0; 0] [0; 1] (pack 1 (map (fun i => i mod 2) (nseq 512))).
+
+Lemma replace_zero_sparse_refuted :
+  exists a, decode c10_sparse_block = Ok a /\ count_eq a 0 = 3584 /\
+  exists b', replace_label true c10_sparse_block 0 7 = Ok (b', 0) /\ decode b' = Ok a.
+Proof.
+  eexists. split; [vm_compute; reflexivity|]. split; [vm_compute; reflexivity|].
+  eexists. split; vm_compute; reflexivity.
+Qed.
